@@ -209,6 +209,31 @@ def o84(ctx):
         if bad:
             ctx.finding(q, last_store(it, res, "object_id") or fn, f"{bad[0]}: inputs with object ids {bad[1]} and {bad[2]} are merged into "
                         f"{bad[3]} and {bad[4]}", last_store(it, res, "object_id") or fn, m)
+        # lists without particles are part of the quantifier: the smallest / largest object number of an input only exists when the
+        # input has rows (min/max of nothing is an error or NaN, and a NaN running maximum makes every later comparison False, so
+        # the inputs after an empty one are no longer shifted).  Every such reduction must sit behind an emptiness test of that input
+        A2 = {k: v for k, v in A.items() if "empty" not in k}
+        it2 = Interp(ctx.prog, assume=assume_map(A2))
+        e1, e2 = motl_obj(ctx.prog, prefix="a:", name="df1"), motl_obj(ctx.prog, prefix="b:", name="df2")
+        it2.run(q, [Seq([e1, e2], "list")], {}, self_obj=ClassRef("cryomotl.Motl"))
+        spaces = {"a:": e1.attrs["df"].space.id, "b:": e2.attrs["df"].space.id}
+        reds = [e for e in it2.events if e.kind == "call" and e.name.split(".")[-1] in ("min", "max", "amin", "amax", "nanmin", "nanmax") and e.args]
+        n_red = 0
+        for e in reds:
+            t_ = to_term(e.args[0])
+            owners = {p_ for p_ in spaces for s_ in tm.symbols(t_) if s_.startswith(p_)}
+            if len(owners) != 1:
+                continue
+            n_red += 1
+            sid = spaces[next(iter(owners))]
+            guarded = any(n.op == "call" and n.args[0] == "nrows" and tm.cval(n.args[1]) == sid for g in e.guards for n in tm.walk(g))
+            if not guarded:
+                ctx.finding(q, e.node, "the smallest / largest object number of an input list is taken without testing that the list has "
+                            "particles: for an empty input it does not exist (NaN or an error), and a NaN running maximum leaves every "
+                            "later input unshifted, so object numbers collide", e.node, m)
+        ctx.count(n_red, {"min/max of an input's object numbers behind an emptiness test": n_red})
+        if n_red < 2:
+            raise Unsupported("object-number range of the inputs (min / max of object_id) not found in the merge", fn)
         if q.endswith("merge_and_renumber"):
             t = res.cols["subtomo_id"]
             ctx.count(1)
@@ -254,6 +279,34 @@ def o82(ctx):
     ctx.count(1)
     if len(grp) != 1 or not (grp[0].args and isinstance(grp[0].args[0], ast.Constant) and grp[0].args[0].value == "tomo_id"):
         ctx.finding(q, grp[0] if grp else fn, "objects must be renumbered per tomogram (groupby('tomo_id'))", grp[0] if grp else fn, m)
+    elif grp:
+        # the per-tomogram numbering is the only way out: a shortcut taken before it (early return under a data test) keeps the old
+        # numbers, which is right only if the test itself establishes consecutive numbers per (tomogram, object) -- a test that never
+        # looks at the tomograms cannot
+        def derived_text(name, depth=0):
+            out = [name]
+            if depth < 3:
+                for a_ in ast.walk(fn):
+                    if isinstance(a_, ast.Assign) and any(isinstance(t_, ast.Name) and t_.id == name for t_ in a_.targets):
+                        out.append(ast.unparse(a_.value))
+                        for n_ in ast.walk(a_.value):
+                            if isinstance(n_, ast.Name) and n_.id != name:
+                                out.extend(derived_text(n_.id, depth + 1))
+            return out
+
+        for r_ in [x for x in ast.walk(fn) if isinstance(x, ast.Return) and x.lineno < grp[0].lineno]:
+            p_ = m.parents.get(r_)
+            while p_ is not None and not isinstance(p_, (ast.If, ast.FunctionDef)):
+                p_ = m.parents.get(p_)
+            ctx.count(1)
+            if isinstance(p_, ast.If):
+                texts = [ast.unparse(p_.test)] + [t_ for n_ in ast.walk(p_.test) if isinstance(n_, ast.Name) for t_ in derived_text(n_.id)]
+                if not any("tomo_id" in t_ for t_ in texts):
+                    ctx.finding(q, p_, "a shortcut returns before the per-tomogram renumbering on a test that never looks at the tomograms: "
+                                "objects with the same number in different tomograms stay fused (the (tomogram, object) groups do not get "
+                                "consecutive numbers of their own)", p_, m)
+                else:
+                    raise Unsupported("renumber_objects_sequentially: data-dependent shortcut before the per-tomogram renumbering", p_)
 
 
 def _obligations():
